@@ -15,7 +15,7 @@ type invocation struct {
 	draws          []string // %#v of every value received from Draw, in order
 	vals           []string // canonical text of the values drawn outside rejected attempts (Custom retries, rejected actions)
 	nsignals       int
-	signalInCustom bool // a failure statement was executed inside a Custom generator function
+	signalInCustom bool // a non-fatal failure statement (Error*/Fail) was executed inside a Custom generator function
 	events         []string
 	ended          string // "ret" if the body returned normally, "" otherwise
 	signalled      bool   // a failure statement was executed
@@ -53,12 +53,12 @@ func (in *interp) genFor(g *SX) *rapid.Generator[any] {
 func (in *interp) signal(s *SX) {
 	if in.cur != nil {
 		in.cur.signalled = true
-		if in.customDepth > 0 {
-			in.cur.signalInCustom = true
-		}
 		in.cur.nsignals++
 		switch s.Head() {
 		case "error", "fail", "goerror":
+			if in.customDepth > 0 {
+				in.cur.signalInCustom = true // D8 is about these: the test case goes on after the signal, the attempt can be rejected
+			}
 			in.cur.events = append(in.cur.events, "F:nonfatal")
 		default:
 			in.cur.events = append(in.cur.events, "F:"+s.String())
